@@ -20,32 +20,32 @@ import (
 
 // Case is one generated program with its initial worlds.
 type Case struct {
-	ID     string
-	Rules  []*grl.Rule
-	Style  grl.Style
-	Worlds []func() *ref.World
+	ID         string
+	Rules      []*grl.Rule
+	Style      grl.Style
+	Worlds     []func() *ref.World
 	WorldNames []string
-	Opts   hx.RunOpts
-	Meta   map[string]string // family coordinates (used for signatures)
+	Opts       hx.RunOpts
+	Meta       map[string]string // family coordinates (used for signatures)
 }
 
 // Verdict is what a judge returns for one trace.
 type Verdict struct {
-	Sig  string // "" = no violation
-	What string
-	Nontrivial bool   // the judged clause was really exercised by this trace
-	Foreign int       // divergences belonging to another property
+	Sig        string // "" = no violation
+	What       string
+	Nontrivial bool // the judged clause was really exercised by this trace
+	Foreign    int  // divergences belonging to another property
 }
 
 type FamilyStats struct {
 	Programs, Runs, States, Transitions int64
-	Nontrivial int64
-	Foreign    int64
-	BuildFail  int64
-	Capped     int64
-	MaxDepth   int64
-	Nondet     int64
-	DistinctOutcomes sync.Map
+	Nontrivial                          int64
+	Foreign                             int64
+	BuildFail                           int64
+	Capped                              int64
+	MaxDepth                            int64
+	Nondet                              int64
+	DistinctOutcomes                    sync.Map
 }
 
 // Deadline support: checks stop enumerating (exhaustive=false) when the budget is over.
@@ -246,4 +246,25 @@ func sortedKeys(m map[string]bool) []string {
 	}
 	sort.Strings(s)
 	return s
+}
+
+// ParallelEach runs fn(i) for i in [0,n) on all cores.
+func ParallelEach(n int, fn func(i int)) {
+	var wg sync.WaitGroup
+	nw := runtime.NumCPU()
+	var next int64 = -1
+	for k := 0; k < nw; k++ {
+		wg.Add(1)
+		go func() {
+			defer wg.Done()
+			for {
+				i := int(atomic.AddInt64(&next, 1))
+				if i >= n {
+					return
+				}
+				fn(i)
+			}
+		}()
+	}
+	wg.Wait()
 }
